@@ -179,7 +179,15 @@ pub fn show_notification(n: &Notification) -> String {
                     s.return_codes.iter().map(code_name).collect::<Vec<_>>().join(",")
                 }
             ),
-            verif::Ack::UnsubAck(u) => format!("unsuback {}", u.pkid),
+            verif::Ack::UnsubAck(u) => format!(
+                "unsuback {} {}",
+                u.pkid,
+                if u.reasons.is_empty() {
+                    "-".to_string()
+                } else {
+                    u.reasons.iter().map(|r| if *r == UnsubAckReason::Success { 'S' } else { 'N' }).collect::<String>()
+                }
+            ),
             verif::Ack::PingResp(_) => "pingresp".into(),
         },
         Notification::Unschedule => "unsched".into(),
